@@ -29,6 +29,8 @@ def srcdir(pid, m):
         return "/tmp/mut2-%s" % pid, "/tmp/mut2-%s/out/m1" % pid
     if m == "m4":
         return "/tmp/mut3-%s" % pid, "/tmp/mut3-%s/out/m1" % pid
+    if m == "m5":
+        return "/tmp/mut4-%s" % pid, "/tmp/mut4-%s/out/m1" % pid
     return "/tmp/mut-%s" % pid, "/tmp/mut-%s/out/%s" % (pid, m)
 
 def load(key):
